@@ -33,9 +33,9 @@ type RunConfig struct {
 	AccessLog      bool
 	Trace          bool
 	UsePool        bool // take solvers from the global pool (one per path) instead of one per worker
-	TraceThread int  // trace mode: explore the event tree of this thread (0 = main)
-	TraceOn     bool
-	MaxEvents   int
+	TraceThread    int  // trace mode: explore the event tree of this thread (0 = main)
+	TraceOn        bool
+	MaxEvents      int
 }
 
 var pools = map[string]chan *smt.Solver{}
@@ -104,6 +104,7 @@ type RunResult struct {
 	Violations  []Event
 	Known       []Event
 	Unknown     []Event
+	Undecided   []string // BMC search mode: queries without a verdict (nothing claimed for them)
 	Aborts      []Event
 	Reach       map[string]int
 	Observes    []Event
